@@ -9,6 +9,7 @@ import pickle
 from ..core import PropCheck, Case, sx
 
 OPS = ('ctor', 'add', 'iadd', 'sub', 'isub', 'uniq')
+# 'copy' = TagCollection(c): the constructor given the current collection itself (for the model: the constructor on its items)
 
 # forests over 4 elements, "some nested in each other"
 FORESTS4 = [
@@ -86,6 +87,8 @@ def apply_op(U, c, op):
     name, xs = op[0], U.els(op[1:])
     if name == 'ctor':
         return TagCollection(xs)
+    if name == 'copy':
+        return TagCollection(c)
     if name == 'add':
         return c + xs
     if name == 'iadd':
@@ -152,6 +155,10 @@ class Check(PropCheck):
                 for b in tiny:
                     for c in tiny:
                         yield Case({'forest': FORESTS4[0], 'ops': [['ctor', 1, 3], a, b, c]}, 'exhaustive')
+        for a in small:
+            if a[0] in ('iadd', 'isub'):
+                yield Case({'forest': FORESTS4[0], 'ops': [['ctor', 1, 3], ['copy'], a]}, 'exhaustive')
+                yield Case({'forest': FORESTS4[0], 'ops': [['ctor', 1, 3], ['copy'], a, ['iadd', 0, 1]]}, 'exhaustive')
         n = 4000 if tier == 'thorough' else 400
         for _ in range(n):
             yield Case(self.random_case(rng), 'random')
@@ -172,6 +179,9 @@ class Check(PropCheck):
         forest = [mk(r) for r in roots]
         ops = []
         for _ in range(rng.randint(1, 30)):
+            if rng.random() < 0.12:
+                ops.append(['copy'])
+                continue
             o = rng.choice(OPS)
             k = rng.choice((0, 1, 1, 2, 3, 3, 5))
             pool = list(range(n))
@@ -207,10 +217,30 @@ class Check(PropCheck):
                 yield {'forest': d['forest'], 'ops': ops[:i] + [op[:j] + op[j + 1:]] + ops[i + 1:]}
 
     # ---- both sides --------------------------------------------------------------------------
+    @staticmethod
+    def expand_copy(ops):
+        """the same history with every ['copy'] written as the constructor on the contents at that point (reference semantics)"""
+        ref, out = [], []
+        for op in ops:
+            name, xs = op[0], op[1:]
+            if name == 'copy':
+                op = ['ctor'] + list(ref)
+                name, xs = 'ctor', list(ref)
+            if name in ('ctor', 'uniq'):
+                ref = []
+            if name in ('ctor', 'uniq', 'add', 'iadd'):
+                for x in xs:
+                    if x not in ref:
+                        ref.append(x)
+            elif name in ('sub', 'isub'):
+                ref = [x for x in ref if x not in xs]
+            out.append(op)
+        return out
+
     def encode(self, d):
         from ..core import enc, opt
         ops = []
-        for op in d['ops']:
+        for op in self.expand_copy(d['ops']):
             if op[0] == 'tageq':
                 ops.append(['tageq'] + [[enc(n)] + [[enc(k), opt(v)] for k, v in attrs] for n, attrs in PROBES])
             else:
@@ -272,11 +302,13 @@ class Check(PropCheck):
                 # result (a result sharing the operand's uid bookkeeping shows here)
                 olds.append((prev, prev_ref, n))
                 del olds[:-4]
-            elif name in ('add', 'sub', 'ctor', 'uniq'):
+            elif name in ('add', 'sub', 'ctor', 'uniq', 'copy'):
                 return ('aliasing', 'op %d %r returned its left operand itself' % (n, op))
-            if name in ('ctor', 'uniq'):
+            if name == 'copy':
+                xs = list(ref)
+            if name in ('ctor', 'uniq', 'copy'):
                 ref = []
-            if name in ('ctor', 'uniq', 'add', 'iadd'):
+            if name in ('ctor', 'uniq', 'add', 'iadd', 'copy'):
                 ref = list(ref)
                 for x in xs:
                     if x not in ref:
